@@ -87,6 +87,107 @@ CHECKS.update({
              'components beyond 2^10.'),
 })
 
+CHECKS.update({
+    'C05': dict(
+        text='Symbolic execution of write -> read of every packet class '
+             'returned by the 8 get_packets tables, with ONE symbolic '
+             'protocol version over the 250 supported numbers (paths = '
+             'version classes with the same layout) and symbolic field '
+             'values generated per wire type; hand-written packets (map, '
+             'player list, spawn object, combat event, face player, plugin '
+             'response) with enumerated structure; seeded random user-defined '
+             'field lists (programs) each decided for all field values.',
+        note='Trusted: codec models; get_id is replaced by an arbitrary '
+             'symbolic id during the round trip (ladders: C06); lossy float '
+             'codecs take concrete grid points (codecs: C02); quick tier '
+             'limits VarInt fields to 2 bytes and arrays to 1 element.'),
+    'C07': dict(
+        text='Differential check of the core packets against '
+             'ref/core_packets.py (ids and layouts per release, written from '
+             'the protocol documentation, no code shared with pyCraft): for '
+             'each of the 30 release protocols the bytes pyCraft writes for '
+             'symbolic field values must be an encoding the reference '
+             'accepts (id, order, types), and pyCraft must decode them back.',
+        note='Trusted base: the reference table (from memory of the protocol '
+             'documentation; omitted cells are listed in the evidence); '
+             'codec models; z3.'),
+    'C09': dict(
+        text='The real Connection/NetworkingThread/StatusReactor code run '
+             'sequentially against a scripted status/login server: the '
+             'reported protocol number is any 32-bit integer (symbolic), '
+             'host/port/user symbolic, default version symbolic; handshake '
+             'and login-start bytes compared with the reference layout; '
+             'reply shapes, allowed-version configurations and handler modes '
+             'enumerated.',
+        note='Trusted: E-socket/E-select/E-thread/E-clock/E-json stubs '
+             '(sequentialised connection: no interleavings); the digits of '
+             'the number in the error text are checked on replays only.'),
+    'C10': dict(
+        text='The real LoginReactor / encryption / compression code run '
+             'sequentially against a scripted login server for every script '
+             'over {encrypt, compress(threshold symbolic), plugin request*, '
+             'success | disconnect}: the server decodes the client stream '
+             'with its own keystream position and framing, so any missed or '
+             'misplaced switch desynchronises; RSA/AES/SHA-1/zlib are '
+             'contract stubs.',
+        note='Trusted: E-cipher, E-rsa, E-urandom, E-sha1, E-zlib contracts; '
+             'sequentialised connection. The replay uses real '
+             'cryptography/zlib/hashlib with a generated RSA key.'),
+    'C11': dict(
+        text='The real PlayingReactor and networking loop run sequentially '
+             'with a symbolic protocol version over all supported versions '
+             'and symbolic keep-alive/teleport ids, coordinates and unknown '
+             'frame content; enumerated history patterns incl. a 120-packet '
+             'history across the 50/300 batch limits; replies decoded with '
+             'the reference decoder.',
+        note='Trusted: sequentialised connection stubs; server frames built '
+             'with pyCraft\'s writer (checked in C01/C07).'),
+    'C13': dict(
+        text='Listener dispatch of the real Connection run sequentially: '
+             'per listener a symbolic "raises IgnorePacket" boolean, incoming '
+             'packet ids symbolic over {handled, unhandled, unknown}; seeded '
+             'listener configurations; the call log is compared with the '
+             'documented stage semantics evaluated on the same booleans.',
+        note='Trusted: sequentialised connection stubs. Listener '
+             'configurations are sampled (seeded) + 4 fixed ones.'),
+    'C14': dict(
+        text='Exception routing of the real NetworkingThread.run / '
+             '_handle_exception run sequentially: fault origin, handler '
+             'chain, final handler enumerated/seeded; per handler a symbolic '
+             '"raises" boolean and class choice; compared with try/except-'
+             'chain semantics; reconnect afterwards.',
+        note='Trusted: sequentialised connection stubs.'),
+    'C15': dict(
+        text='Reference conversations with the server stream cut at ONE '
+             'symbolic offset (every prefix length): unwinding assertion on '
+             'reads after end-of-stream, termination with an error or the '
+             'documented fallback, and no incomplete packet delivered; a hit '
+             'bound is confirmed by a concrete replay under a watchdog.',
+        note='Trusted: E-stream truncation model, sequentialised '
+             'connection. Outside: encrypted conversations.'),
+    'C18': dict(
+        text='Conditional on the cryptography library contract: the cipher '
+             'requested is exactly AES(secret)/CFB8(secret); each wrapper '
+             'pushes every byte exactly once and in order through one '
+             'encryptor / one decryptor for every segmentation (symbolic '
+             'read sizes, keystream model); the secret is the fresh urandom '
+             'output; token and secret are PKCS1v15-encrypted under the '
+             'server key in (token, secret) order.',
+        note='AES/RSA sit behind FFI and cannot be encoded: validated each '
+             'run by a known-answer comparison with an independent '
+             'pure-Python AES-128-CFB8 (ref/aes_cfb8.py) and an RSA decrypt '
+             'with generated 1024/2048-bit keys.'),
+    'C19': dict(
+        text='AuthenticationToken operations executed symbolically: reply '
+             'status any integer in {200,204} U [400,599], body shape by '
+             'fork, credential fields None/empty/symbolic, sequences of '
+             'operations; posted URL/payload/headers compared structurally '
+             'with the documented ones; error replies must leave every '
+             'credential term unchanged.',
+        note='Trusted: E-requests / E-json stubs (the requests.post '
+             'boundary).'),
+})
+
 NOT_APPLICABLE = {
     'C12': 'quantifies over thread interleavings at lock/queue/send '
            'granularity; the symbolic executor runs one thread and CPython\'s '
@@ -97,21 +198,16 @@ NOT_APPLICABLE = {
            '(DESIGN.md 5 C16)',
 }
 
-PENDING = {
-    'C01': 'harness not built yet', 'C05': 'harness not built yet',
-    'C07': 'harness not built yet', 'C09': 'harness not built yet',
-    'C10': 'harness not built yet', 'C11': 'harness not built yet',
-    'C13': 'harness not built yet', 'C14': 'harness not built yet',
-    'C15': 'harness not built yet', 'C17': 'harness not built yet',
-    'C18': 'harness not built yet', 'C19': 'harness not built yet',
-    'C20': 'harness not built yet',
-}
+PENDING = {}
+# harnesses that exist but are not registered yet (still being calibrated)
+HOLD = set(os.environ.get('VERIF_HOLD', '').split())
 
 
 def main():
     built = sorted(
         p for p in CHECKS
-        if os.path.exists(os.path.join(ROOT, 'harness', p.lower() + '.py')))
+        if os.path.exists(os.path.join(ROOT, 'harness', p.lower() + '.py'))
+        and p not in HOLD)
     checks = []
     for p in built:
         c = CHECKS[p]
@@ -129,8 +225,8 @@ def main():
             'technique': c.get('technique', TECH),
         })
     na = [{'property_id': p, 'reason': r} for p, r in NOT_APPLICABLE.items()]
-    na += [{'property_id': p, 'reason': 'not claimed yet: ' + r}
-           for p, r in sorted(PENDING.items()) if p not in built]
+    na += [{'property_id': p, 'reason': 'not claimed yet: check exists but '
+            'is still being calibrated'} for p in sorted(HOLD)]
     man = {
         'version': 1,
         'setup_cmd': './bin/setup.sh',
